@@ -131,7 +131,27 @@ func gen(tier string, rng *h.Rng, emit func(string)) {
 	emit("full p=query.sys role=submitter bt=0 peers=1 reps=10")
 	emit("full p=query.user role=submitter bt=1 peers=2 reps=2")
 	emit("full p=query.user role=member bt=0 peers=1 reps=6")
+	// stage failures at pipeline level (review G 2/3/5): the peer refuses or is silent (p.Request fails /
+	// blocks), the chain call fails, the document server answers, answers late (the context ends while the
+	// fetch is in flight), refuses, the selector does not compile
+	emit("full p=query.url role=member bt=1 peers=0 url=ok reps=1")
+	emit("full p=query.url role=member bt=1 peers=0 url=refuse reps=1")
+	emit("full p=query.url role=member bt=1 peers=0 url=badsel reps=1")
+	emit("full p=query.url role=member bt=0 peers=0 url=slow reps=2")
+	emit("full p=query.url role=submitter bt=0 peers=1 url=slow reps=1")
+	emit("full p=query.sys role=member bt=1 peers=0 req=fail reps=2")
+	emit("full p=query.sys role=member bt=0 peers=0 req=block reps=1")
+	emit("full p=query.user role=member bt=0 peers=0 req=fail reps=1")
+	emit("full p=query.user role=submitter bt=1 peers=2 chain=fail reps=1")
+	emit("full p=query.sys role=submitter bt=1 peers=1 chain=fail reps=1")
+	// a member that refuses connections while the session stays live for 6 s (the senders' retry loops
+	// make a dozen attempts)
+	emit("full p=grouping n=3 fault=silent:2 cancel=never live=6000 reps=1")
 	faults := []string{"none", "silent:2", "silent:0", "dropdeal:1", "dropresp:2", "loseack:0"}
+	// every fault once with a cancellation point (directed: not left to the draws below)
+	for i, f := range faults[1:] {
+		emit(fmt.Sprintf("full p=grouping n=3 fault=%s cancel=ev%d reps=1", f, 6+5*i))
+	}
 	k := 4
 	if tier == "thorough" {
 		k = 16
